@@ -41,6 +41,15 @@ def cases(tier, rng, schema, feats):
                 tree = cbor.M(rng.shuffle(tree.pairs))
             out.append(f"C01.{n}\tdecty\t{t}\t{cbor.enc(tree).hex()}")
             n += 1
+    # every COSE algorithm identifier of the registered neighbourhood offered in pubKeyCredParams, alone and with
+    # the two supported ones: only -7 and -8 may come out, in the order sent
+    from . import c14 as _c14
+    k = len(out)
+    for alg in list(range(-70, 8)) + [-257, -258, -259, -65535, 256]:
+        for lst in ([_c14.entry(alg, "public-key")], [_c14.entry(alg, "public-key"), _c14.entry(-7, "public-key")],
+                    [_c14.entry(-8, "public-key"), _c14.entry(alg, "public-key"), _c14.entry(-7, "public-key")]):
+            out.append(f"C01.algid.{k}\tdec2\t{_c14.mc(lst).hex()}")
+            k += 1
     return out
 
 
